@@ -68,6 +68,22 @@ type RunResult struct {
 // Failed reports whether the CLI signalled failure (non-zero exit).
 func (r RunResult) Failed() bool { return r.Exit != 0 || r.TimedOut }
 
+// EnvironmentFailure reports a failure that is not yaccgo's verdict about its
+// input: yaccgo always fails through a Go panic, so a non-zero exit without
+// one (killed, could not start), or one that mentions resource exhaustion, is
+// a problem of the machine (disk full, out of memory), not of the property.
+func (r RunResult) EnvironmentFailure() bool {
+	if !r.Failed() || r.TimedOut {
+		return false
+	}
+	for _, k := range []string{"no space left on device", "cannot allocate memory", "too many open files", "disk quota exceeded", "resource temporarily unavailable"} {
+		if strings.Contains(r.Stderr, k) {
+			return true
+		}
+	}
+	return !strings.Contains(r.Stderr, "panic:")
+}
+
 // Run executes a command with a deadline.
 func Run(timeout time.Duration, dir string, stdin []byte, name string, args ...string) RunResult {
 	ctx, cancel := context.WithTimeout(context.Background(), timeout)
